@@ -130,6 +130,16 @@ var ledgerSpecs = []ledgerSpec{
 			{"paid-contract+truncate", ledger.Cfg{Nodes: []string{"G"}, Supply: sp(10, 0), Menu: []ledger.TxSpec{tx("tz2", "A", "B", 6, 0), cfl2("c7"), cfl2("c8")},
 				Hidden: []ledger.TxSpec{t1, {Label: "pc", From: "A", To: "B", Cur: 6, Data: "paid contract"}, cfl2("c4"), cfl2("c5"), cfl2("c6")}, Truncate: true,
 				Prefix: []string{"P:0:t1", "P:0:pc", "P:0:c4", "P:0:c5", "P:0:c6", "T:0"}, Props: only("C02")}, 3, 0, 0},
+			// a delayed side vertex built directly on a wallet's income: node 1 builds sv on t1 while node 0's chain grows past the
+			// wallet's full spend (tz); sv then arrives as a second tip, so the walk from the next tip meets the old income
+			// (via sv) before the younger spend
+			{"delayed-side-tip-on-income", ledger.Cfg{Nodes: []string{"G", "N1"}, Supply: sp(10, 0), Menu: []ledger.TxSpec{tx("tz2", "A", "B", 6, 0), cfl2("c7"), cfl2("c8")},
+				Hidden:          []ledger.TxSpec{t1, cfl2("sv"), tx("tz", "A", "B", 6, 0), cfl2("c4"), cfl2("c5"), cfl2("c6")},
+				MaxProposeNodes: 1, Prefix: []string{"P:0:t1", "D:1:0", "P:1:sv", "P:0:c4", "P:0:tz", "P:0:c5", "P:0:c6", "D:0:1"}, Props: only("C02")}, 3, 0, 0},
+			// checkpointed income, the spend of all of it still live: the next spend meets the checkpointed funds first
+			{"checkpointed-income+live-spend", ledger.Cfg{Nodes: []string{"G"}, Supply: sp(10, 0), Menu: []ledger.TxSpec{tx("tz2", "A", "B", 6, 0), tx("tz3", "A", "B", 1, 0), cfl2("c7"), cfl2("c8")},
+				Hidden: []ledger.TxSpec{t1, tx("tz", "A", "B", 6, 0), cfl2("c4")}, Truncate: true,
+				Prefix: []string{"P:0:t1", "P:0:c1", "P:0:c2", "P:0:c3", "T:0", "P:0:tz", "P:0:c4"}, Props: only("C02")}, 4, 0, 0},
 			// a wallet pays itself: the amount is income and spending at once (A holds 6, pays itself 5, then tries to pay 9)
 			{"self-payment", ledger.Cfg{Nodes: []string{"G"}, Supply: sp(10, 0), Menu: []ledger.TxSpec{t1, tx("sp5", "A", "A", 5, 0), tx("sb9", "A", "B", 9, 0), tx("sp20", "B", "B", 20, 0), t7}, Props: only("C02")}, d, 0, 0},
 		}
@@ -351,6 +361,13 @@ func ledgerMain(s ledgerSpec, args []string) int {
 	if s.id == "C10" && *replay != "" && isSchedReplay(*replay) {
 		return sched.ReplayFile("C10", c10Scenarios(), *replay)
 	}
+	if s.id == "C14" && fs.NArg() >= 1 && fs.Arg(0) == "schedworker" {
+		sched.WorkerMain(c14Scenarios())
+		return 0
+	}
+	if s.id == "C14" && *replay != "" && isSchedReplay(*replay) {
+		return sched.ReplayFile("C14", c14Scenarios(), *replay)
+	}
 	if s.id == "C07" && fs.NArg() >= 1 && fs.Arg(0) == "schedworker" {
 		sched.WorkerMain(c07Scenarios())
 		return 0
@@ -473,6 +490,13 @@ func ledgerMain(s ledgerSpec, args []string) int {
 	}
 	if s.id == "C10" && (*run == "" || *run == "sched") {
 		ex, div := schedPart(rep, "C10", c10Scenarios(), *procs, 0)
+		if !ex {
+			rep.Set("sched_note", "SCHED part capped; SPACE part exhaustive within its bound")
+		}
+		total.Diverged += div
+	}
+	if s.id == "C14" && (*run == "" || *run == "sched") {
+		ex, div := schedPart(rep, "C14", c14Scenarios(), *procs, 0)
 		if !ex {
 			rep.Set("sched_note", "SCHED part capped; SPACE part exhaustive within its bound")
 		}
